@@ -284,13 +284,16 @@ func (l *listener) getConn(raddr net.Addr, buf []byte) (*Conn, bool, error) {
 			}
 		}
 		conn = l.newConn(raddr)
+		// The reference is taken before the connection becomes visible to
+		// Accept: Accept followed by Conn.Close must find it counted, otherwise
+		// the count could drop to zero and release the socket under an open listener.
+		l.connWG.Add(1)
 		select {
 		case l.acceptCh <- conn:
-			// the reference is taken here, under connLock, so that a
-			// concurrent Close cannot release the socket under Accept
-			l.connWG.Add(1)
 			l.conns[raddr.String()] = conn
 		default:
+			l.connWG.Done()
+
 			return nil, false, ErrListenQueueExceeded
 		}
 	}
